@@ -33,6 +33,7 @@ ASSUMPTIONS = [
     "numeric-root options: is_exact=True implies exact equality; any difference implies is_exact=False; deviation bound 1e-3 relative "
     "for n<=7 at eps<=1e-6 is deliberately loose (gross errors only)",
     "trivial_guard is excluded (changes meaning by design); exact_func_moments is not a C17 option (only subject to C20)",
+    "disable_type_inference without declarations is also drawn (12 % of the non-numeric vectors): programs that still succeed must agree; "
     "with declared types and inference disabled only original variables can be typed; programs whose conditions need the type of an "
     "auxiliary variable are then refused, which is not a violation",
 ]
@@ -69,6 +70,9 @@ def option_vector(rng, bias=None):
             v["_force_cyclic"] = True
         if rng.random() < (0.4 if bias == "branchy" else 0.15):
             v["_explicit_types"] = True
+        elif rng.random() < 0.12:
+            # no inferred and no declared types at all: programs that need none must give the same results without them
+            v["disable_type_inference"] = True
         if not v:
             v[rng.choice(["transform_categoricals", "cond2arithm", "_force_cyclic"])] = True
     else:
@@ -229,7 +233,8 @@ def categorical_program(rng):
                             [["cmp", var("c"), rng.choice(["==", ">="]), num(vals[1])], [["assign", "y", ["sub", var("y"), num(1)]]]]],
                      [["assign", "y", ["add", var("y"), var("c")]]] if rng.random() < 0.6 else None])
     elif r < 0.75:
-        body.append(["assign", "y", ["add", var("y"), ["mul", var("c"), var("c")]]])
+        # a power of c that has to be rewritten through its value set (as many factors as c has values, or one less)
+        body.append(["assign", "y", ["add", var("y"), ["pow", var("c"), k if rng.random() < 0.5 else 2]]])
     else:
         # an if/elif/else chain whose first branch can never be taken; every branch assigns the same variable
         dead = rng.choice([["cmp", var("c"), ">", num(max(vals))], ["cmp", var("c"), "<", num(min(vals))], ["cmp", var("c"), "==", num(max(vals) + 1)]])
@@ -299,7 +304,7 @@ def _program_choice(rng):
 
 
 CLI_FLAGS = {"transform_categoricals": "--transform_categoricals", "cond2arithm": "--cond2arithm", "numeric_roots": "--numeric_roots",
-             "numeric_croots": "--numeric_croots"}
+             "numeric_croots": "--numeric_croots", "disable_type_inference": "--disable_type_inference"}
 
 
 def cli_flags(vec):
